@@ -558,3 +558,56 @@ def run_delete_all(run, P, fname='coap_delete_observers'):
         run.violation('R-OBS-RST', fname, f['loc'], 'session-loss-removes-one-observer-only',
                       '%s() no longer frees subscriptions inside a loop that walks a subscriber list: a session that holds several observations on one resource keeps all '
                       'but one of them after it is lost, with their session references, and they are still notified' % fname, [])
+
+
+def run_fail_count(run, P, field='fail_cnt'):
+    """R-OBS-RST (a failed Confirmable notification ends the observation): the function that is told about a notification nobody
+    acknowledged counts THIS failure before it judges the count: every branch whose condition reads X->fail_cnt is reached, on every path,
+    after X->fail_cnt was stepped in the same call.  With the default COAP_OBS_MAX_FAIL of 1 a test on the old count lets the first
+    given-up notification pass: the observer stays registered, keeps its session alive and keeps being notified -- the clause "after a
+    failed Confirmable notification no further notification is sent" is gone."""
+    run.rule('R-OBS-RST')
+    n = 0
+
+    def fld(x):
+        x = strip(x)
+        return isinstance(x, dict) and x.get('k') == 'mem' and x.get('f') == field
+
+    for f in sorted(P.lib_funcs(), key=lambda f: f['name']):
+        tests = [b for b in f['blocks'] if (b.get('term') or {}).get('cond') is not None and len(b['succ']) == 2 and
+                 any(fld(x) for x in walk(b['term']['cond']) if isinstance(x, dict))]
+        if not tests:
+            continue
+        name = f['name']
+        tids = set(b['id'] for b in tests)
+
+        def is_step(t):
+            return (t.get('k') == 'un' and t.get('op') in ('++', 'post++') and fld(t.get('e'))) or (t.get('k') == 'asg' and t.get('op') == '+=' and fld(t['l']))
+
+        def is_rule_event(ev):
+            return is_step(ev['e'])
+        keys, R = relevance(f, is_rule_event)
+        keys = set(keys) | tids
+        rep = set()
+
+        def on_event(ev, env, ctx):
+            if is_step(ev['e']) and not env.ts.get('stepped'):
+                e = apply_generic(ev, env, R).copy()
+                e.ts['stepped'] = 1
+                return [e]
+            return None
+
+        def on_branch(b, s, env, ctx):
+            if b['id'] in tids:
+                ok = bool(env.ts.get('stepped'))
+                run.oblige('R-OBS-RST', ok, '%s:failure-counted-before-judged' % name)
+                if not ok and b['id'] not in rep:
+                    rep.add(b['id'])
+                    run.violation('R-OBS-RST', name, b['term'].get('loc') or f['loc'], 'fail-count-judged-before-counted',
+                                  '`%s` judges the observer\'s failure count on a path that has not counted the failure this call reports: with COAP_OBS_MAX_FAIL == 1 the '
+                                  'first given-up Confirmable notification leaves the observer registered' % short(b['term']['cond'])[:60], ctx.path())
+            return env
+        n += len(tests)
+        run.instance('R-OBS-RST', '%s: %s is stepped before it is compared with the limit' % (name, field))
+        solve(f, Env(), on_event, None, keys, R, key_fn=lambda e: e.ts.get('stepped'), on_branch=on_branch)
+    run.require(n >= 1 or run.fixture_mode or run.cfg != 'base', 'R-OBS-RST(failure count): no test of %s found (expected coap_remove_failed_observers)' % field)
